@@ -25,35 +25,62 @@ def run():
 
 
 # files whose theorems are 2^24-point sweeps / large computations by the VM: coqchk has no VM and would re-run them with
-# its lazy machine (out of budget); they are accepted by coqc only (said in DESIGN.md section 7)
+# its lazy machine (out of budget); they are accepted by coqc only (said in DESIGN.md section 7) and passed to coqchk
+# as -admit (trusted, not re-checked) when something that is re-checked depends on them
 SKIP_COQCHK = {"Props/MapSpecProps.v", "Props/DisasmCore.v"}
+
+
+def _coqchk_plan():
+    import re
+    mods = []
+    for line in open(os.path.join(vlib.COQ, "_CoqProject")):
+        line = line.strip()
+        if line.endswith(".v"):
+            mods.append(line)
+    deps = {}
+    for m in mods:
+        src = open(os.path.join(vlib.COQ, m)).read()
+        d = set()
+        for mm in re.finditer(r"From\s+(Lib|Props|Spec|Model|Snapshot)\s+Require\s+(?:Import\s+|Export\s+)?([^.]*)\.", src):
+            for name in mm.group(2).split():
+                d.add("%s/%s.v" % (mm.group(1), name))
+        for mm in re.finditer(r"Require\s+(?:Import\s+)?((?:(?:Lib|Props|Spec|Model|Snapshot)\.\w+\s*)+)\.", src):
+            for name in mm.group(1).split():
+                d.add(name.replace(".", "/") + ".v")
+        deps[m] = d
+    required = set()
+    for d in deps.values():
+        required |= d
+    roots = [m for m in mods if m not in required and m not in SKIP_COQCHK]
+    return mods, roots
 
 
 def coqchk():
     """Re-check the compiled static library with the independent checker coqchk and list the axioms it relies on.
-    One module per process (16 in parallel), each under a time limit; writes /verif/coqchk_report.txt."""
-    mods = []
-    for line in open(os.path.join(vlib.COQ, "_CoqProject")):
-        line = line.strip()
-        if line.endswith(".v") and line not in SKIP_COQCHK:
-            mods.append(line)
+    One process per ROOT module (a module no other module imports): coqchk re-checks the root together with everything it
+    depends on, so the roots cover the whole library; writes /verif/coqchk_report.txt."""
+    mods, roots = _coqchk_plan()
     args = ["-Q", "Lib", "Lib", "-Q", "Props", "Props", "-Q", "Spec", "Spec", "-Q", "Model", "Model", "-Q", "Snapshot", "Snapshot"]
+    admit = []
+    for m in sorted(SKIP_COQCHK):
+        admit += ["-admit", m[:-2].replace("/", ".")]
 
     def one(m):
         logical = m[:-2].replace("/", ".")
-        rc, out, dt = vlib.sh(["coqchk", "-silent", "-o"] + args + [logical], cwd=vlib.COQ, timeout=3600, env=dict(os.environ))
+        rc, out, dt = vlib.sh(["coqchk", "-silent", "-o"] + admit + args + [logical], cwd=vlib.COQ, timeout=4 * 3600, env=dict(os.environ))
         return m, rc, dt, out
-    res = vlib.parallel([lambda m=m: one(m) for m in mods], workers=12)
-    lines = ["coqchk -silent -o over the static library of /verif/coq (one module per run, dependencies re-checked with it)", ""]
+    res = vlib.parallel([lambda m=m: one(m) for m in roots], workers=14)
+    lines = ["coqchk -silent -o over the static library of /verif/coq: %d modules, re-checked through %d root modules (each run re-checks" % (len(mods), len(roots)),
+             "the root and everything it depends on, the standard library included)", ""]
     bad = 0
     for m, rc, dt, out in res:
-        ax = [l.strip() for l in out.splitlines() if l.strip()]
+        ax = [l.rstrip() for l in out.splitlines() if l.strip()]
         lines.append("%s: %s (%.0fs)" % (m, "OK" if rc == 0 else ("TIMEOUT" if rc == 124 else "FAILED rc=%d" % rc), dt))
         lines += ["    " + l for l in ax[-25:]]
         if rc not in (0,):
             bad += 1
     lines.append("")
-    lines.append("not re-checked (VM-sized computations, accepted by coqc only): " + ", ".join(sorted(SKIP_COQCHK)))
+    lines.append("admitted, not re-checked (VM-sized computations, accepted by coqc only): " + ", ".join(sorted(SKIP_COQCHK)))
     open(os.path.join(vlib.ROOT, "coqchk_report.txt"), "w").write("\n".join(lines) + "\n")
     print("\n".join(l for l in lines if not l.startswith("    ")))
     return 1 if bad else 0
